@@ -27,6 +27,10 @@ def premul_pixel(rng):
         a = rng.choice([1, 2, 127, 128, 254])
     else:
         a = rng.randrange(256)
+    if rng.random() < 0.1:
+        # translucent white: every channel equals alpha (the commonest premultiplied colour, and the one where any
+        # rounding disagreement between the alpha and the colour channels breaks r,g,b <= a)
+        return (a << 24) | (a << 16) | (a << 8) | a
     def ch():
         c = rng.random()
         if c < 0.2:
